@@ -481,6 +481,49 @@ def c16_do_mean(kind, dtype=None, pixels=None, zones=None, nz=None, nodata=None,
     return {"violates": False}
 
 
+def c16_accessor(zone_dtype, zones, z_nodata, pixels, nodata, nz):
+    """zonal.mean through the accessor for a zone raster of the given integer dtype: the witness raster, then a larger raster of the
+    same dtype with the same zone nodata; per zone the NumPy masked mean / count, empty zones NaN / 0."""
+    import xarray as xr
+    import hdc.algo  # noqa
+    rng = np.random.default_rng(16)
+    bad = []
+    info = np.iinfo(zone_dtype)
+    znd = int(z_nodata)
+    if znd in (0, 1):
+        znd = int(info.max)
+    for R, Cn in ((1, 2), (6, 7)):
+        zr = rng.integers(0, nz, size=(R, Cn)).astype(zone_dtype)
+        zr[rng.random(size=zr.shape) < 0.4] = znd
+        if (R, Cn) == (1, 2):
+            zr = np.array(zones, dtype=zone_dtype)
+            if not np.all((zr == int(z_nodata)) | (zr < nz)):
+                zr = np.where((zr == int(z_nodata)) | (zr < nz), zr, np.array(z_nodata).astype(zone_dtype))
+            use_nd = int(z_nodata)
+        else:
+            use_nd = znd
+        T = 2
+        px = rng.integers(-50, 200, size=(T, R, Cn)).astype("int16")
+        px[px == nodata] += 1
+        px[rng.random(size=px.shape) < 0.15] = nodata
+        da = xr.DataArray(px, dims=("time", "y", "x"), coords={"time": [0, 1]}, attrs={"nodata": int(nodata)})
+        zda = xr.DataArray(zr, dims=("y", "x"), attrs={"nodata": use_nd})
+        try:
+            res = da.hdc.zonal.mean(zda, list(range(nz)), dtype="float64").values
+        except Exception as e:  # noqa
+            return {"violates": True, "raised": f"{type(e).__name__}: {e}"[:200], "zone_dtype": zone_dtype, "z_nodata": use_nd}
+        for t in range(T):
+            for z in range(nz):
+                m = (zr == z) & (zr != np.array(use_nd).astype(zone_dtype)) & (px[t] != nodata)
+                cnt = int(m.sum())
+                exp_mean = float(px[t][m].astype("float64").mean()) if cnt else float("nan")
+                g_mean, g_cnt = float(res[t, z, 0]), float(res[t, z, 1])
+                same_mean = (math.isnan(exp_mean) and math.isnan(g_mean)) or abs(g_mean - exp_mean) <= 1e-9 * max(1.0, abs(exp_mean))
+                if not same_mean or g_cnt != cnt:
+                    bad.append({"raster": [R, Cn], "t": t, "zone": z, "got": [g_mean, g_cnt], "expected": [exp_mean, cnt], "z_nodata": use_nd})
+    return {"violates": bool(bad), "bad": bad[:4], "zone_dtype": zone_dtype}
+
+
 # ------------------------------------------------------------------ C10
 def _mk_reference(x):
     import scipy.stats as ss
